@@ -41,6 +41,7 @@ type Case struct {
 	NSym   int       `json:"nsym"`
 	Nodes  int       `json:"nodes"`
 	Series []SeriesC `json:"series"`
+	Hist   *HistC    `json:"hist,omitempty"` // span-layout family (hist_test.go): one series {__name__="a"} with 1-2 generated histograms; Series is unused
 }
 
 var staleNaN = math.Float64frombits(0x7ff0000000000002)
@@ -105,6 +106,9 @@ func refAlphabet(nsym int, thorough bool) []uint32 {
 func gen(r *vlib.R) iter.Seq[Case] {
 	return func(yield func(Case) bool) {
 		th := r.Thorough()
+		if !genHist(r, yield) { // span-layout family first: a deadline then cuts the tail of the older families
+			return
+		}
 		for nsym := 0; nsym <= len(symbolPool); nsym++ { // 0: empty table, every reference is out of range
 			alpha := refAlphabet(nsym, th)
 			all := refVectors(0, 4, alpha)
@@ -204,6 +208,10 @@ func gen(r *vlib.R) iter.Seq[Case] {
 
 func buildRequest(c Case) writev2.Request {
 	req := writev2.Request{Symbols: append([]string(nil), symbolPool[:c.NSym]...)}
+	if c.Hist != nil {
+		req.Timeseries = append(req.Timeseries, histSeries(*c.Hist))
+		return req
+	}
 	for _, s := range c.Series {
 		ts := writev2.TimeSeries{LabelsRefs: s.Refs, Samples: payloads[s.Payload].samples, Histograms: payloads[s.Payload].hists}
 		for i, e := range s.Exemplars {
@@ -279,6 +287,22 @@ func refSeries(t writev2.TimeSeries, syms []string) prompb.TimeSeries {
 	return out
 }
 
+// sameSeries: the two multisets of series are equal: labels, samples, exemplars and every histogram field byte for
+// byte (protobuf encoding), except that bucket span lists are compared by what they describe (the absolute index of
+// every bucket, see normHist), not by how the list is cut into spans.
+func sameSeries(want, got []prompb.TimeSeries) bool {
+	wb, gb := canon(normSeries(want)), canon(normSeries(got))
+	if len(wb) != len(gb) {
+		return false
+	}
+	for i := range wb {
+		if !bytes.Equal(wb[i], gb[i]) {
+			return false
+		}
+	}
+	return true
+}
+
 func canon(ss []prompb.TimeSeries) [][]byte {
 	out := make([][]byte, 0, len(ss))
 	for i := range ss {
@@ -298,14 +322,25 @@ func TestCheck(t *testing.T) {
 	r.Rule("v2 requests over symbol tables of 0..4 entries; refs from {0..size+1} (size, size+1 out of range; thorough adds MaxUint32): every series LabelsRefs vector of length 0..4, " +
 		"every exemplar LabelsRefs vector of length 0..4 under valid series labels, (valid, any) pairs of exemplars and of series, all payload kinds (0-2 samples, int/float/custom-bucket/unset " +
 		"histograms) x 0-2 exemplars, 2-3 valid series on a 2-node ring; sent through the real HTTP handler; non-trivial = distinct case with an out-of-range reference, " +
-		"or a valid case with at least one label pair")
+		"or a valid case with at least one label pair. Span-layout family: valid native histograms whose bucket span lists are every list of 0..3 spans (thorough 0..4) with first offset in {0,2,-1}, " +
+		"later offsets in {0,2}, lengths in {1,0,2} (zero-length spans leading / in the middle / trailing, offset 0 and > 0) on the positive side, on the negative side (other side empty or a fixed " +
+		"list with a shifting zero-length span), all pairs of short lists, two histograms in one series, custom-bucket schema; integer and float; sent as a 2.0 and as a 1.0 request; ingested by a " +
+		"remote peer and by the handler's own Writer; non-trivial there = distinct case with a zero-length span")
 	r.Assume("a reference is out of range iff it is >= len(symbols); every such reference counts, also the unpaired last entry of an odd-length vector",
 		"for odd-length vectors with all references in range nothing is asserted about the labels beyond: either a 4xx, or the paired prefix is ingested",
 		"peers accept and record whatever is forwarded (stubs of checks/c22/rig in auto mode; replication factor 1, handler outside the ring); "+
 			"metadata references, start timestamps and relabelling are not enumerated",
-		"in production net/http recovers a handler panic by aborting the connection; the check calls the handler function directly and recovers the panic itself")
+		"in production net/http recovers a handler panic by aborting the connection; the check calls the handler function directly and recovers the panic itself",
+		"histograms are the same iff every scalar field is equal and each side has the same value at the same absolute bucket index: span lists are compared after rewriting them into the unique "+
+			"list of maximal non-empty runs (a translation that merges, splits or drops zero-length spans without moving a bucket is accepted); a side whose span lengths do not add up to its number of values is compared literally",
+		"local ingestion = the real receive.Writer on top of a recording storage.Appender (checks/c22/rig), which turns the appended histogram.Histogram back into its protobuf form; no TSDB")
+	defer func() { r.Add("hist_cases_with_zero_length_span_that_shifts_later_buckets", histShifting.Load()) }()
 	vlib.ForEach(r, gen(r), func(c Case) {
 		r.Sample(c)
+		if c.Hist != nil {
+			evalHist(r, t, c)
+			return
+		}
 		req := buildRequest(c)
 		body, err := req.Marshal()
 		if err != nil {
@@ -404,12 +439,7 @@ func TestCheck(t *testing.T) {
 				r.Nontrivial(fmt.Sprint(c))
 			}
 		}
-		wb, gb := canon(want), canon(got)
-		same := len(wb) == len(gb)
-		for i := 0; same && i < len(wb); i++ {
-			same = bytes.Equal(wb[i], gb[i])
-		}
-		if !same {
+		if !sameSeries(want, got) {
 			r.Violation("ingested-series-differ-from-described", fmt.Sprintf("described %+v\ningested %+v", want, got), c)
 		}
 	})
